@@ -15,7 +15,7 @@ from . import engine as E
 from . import loader, models, spec
 from . import symre  # noqa: registers regex / fnmatch models
 from . import dates  # noqa: registers datetime models
-from .engine import Unmodelled, UnwindExceeded, PathAbort
+from .engine import Unmodelled, UnwindExceeded, PathAbort, CaseDeadline
 from .harness import REGISTRY, Env, Raised, for_property
 from .values import SymInt, SymBool, SymFloat, SymStr, zbool
 
@@ -101,6 +101,23 @@ def region_value(expr, inp, params):
     return spec.tb(eval(expr, {'__builtins__': {}}, ns))
 
 
+def conjuncts(z):
+    """split a postcondition into separately checkable conjuncts: And(...), and Or(g, And(...)) distributed"""
+    z = z3.simplify(z)
+    if z3.is_and(z):
+        out = []
+        for c in z.children():
+            out.extend(conjuncts(c))
+        return out
+    if z3.is_or(z):
+        ch = z.children()
+        ands = [c for c in ch if z3.is_and(c)]
+        if len(ands) == 1 and len(ands[0].children()) <= 12:
+            rest = [c for c in ch if not z3.is_and(c)]
+            return [z3.Or(*(rest + [c])) for c in ands[0].children()]
+    return [z]
+
+
 def _leaves(v, out):
     if isinstance(v, (SymInt, SymBool, SymFloat, SymStr)) or getattr(v, '__is_sym__', False):
         out.append(v)
@@ -142,7 +159,8 @@ def run_case(job):
     rc = _W['replay']
     t0 = time.time()
     deadline = t0 + h.case_timeout_s[tier]
-    eng = E.Engine(max_decisions=h.max_decisions, max_ticks=h.max_ticks, solver_timeout_ms=h.solver_timeout_ms,
+    eng = E.Engine(max_decisions=h.max_decisions, max_ticks=h.max_ticks,
+                   solver_timeout_ms=(h.solver_timeout_ms[tier] if isinstance(h.solver_timeout_ms, dict) else h.solver_timeout_ms),
                    deadline=deadline)
     res = dict(harness=hname, params=params, paths=0, status={}, violations=[], known=[], undecided=[], samples=[],
                replays=0, spurious=0, reach=0)
@@ -158,7 +176,7 @@ def run_case(job):
         e.inputs = inp
         try:
             out = h.run(env, inp, params)
-        except (Unmodelled, UnwindExceeded, PathAbort):
+        except (Unmodelled, UnwindExceeded, PathAbort, CaseDeadline):
             raise
         except Exception as ex:
             out = Raised(ex)
@@ -171,10 +189,16 @@ def run_case(job):
             except (Unmodelled, UnwindExceeded, PathAbort):
                 raise
         info = {'cands': []}
-        nz = z3.Not(z)
-        outside = z3.And(nz, *[z3.Not(r) for r in regions]) if regions else nz
-        queries = [(None, outside)] + [(k, z3.And(nz, r)) for k, r in zip(my_kfs, regions)]
+        queries = []
+        for cj in conjuncts(z):
+            nz = z3.Not(cj)
+            outside = z3.And(nz, *[z3.Not(r) for r in regions]) if regions else nz
+            queries.append((None, outside))
+            queries.extend((k, z3.And(nz, r)) for k, r in zip(my_kfs, regions))
+        found_plain = False
         for k, q in queries:
+            if k is None and found_plain:
+                continue
             e.solver.push()
             e.solver.add(q)
             tries = 0
@@ -187,6 +211,8 @@ def run_case(job):
                 rr = replay(inp_c)
                 if rr.get('status') in ('violated', 'hang', 'raised'):
                     info['cands'].append((k, inp_c, rr))
+                    if k is None:
+                        found_plain = True
                     break
                 res['spurious'] += 1
                 e.solver.add(blocking_clause(inp, m))
